@@ -75,11 +75,11 @@ func localNodeFacts(at ssa.Instruction) map[string]bool {
 	if b == nil {
 		return out
 	}
-	for _, pc := range pathConds(b) {
-		if !pc.Branch {
+	for _, pf := range pathFacts(b) {
+		if !pf.Truth {
 			continue
 		}
-		ex, ok := pc.If.Cond.(*ssa.Extract)
+		ex, ok := pf.Cond.(*ssa.Extract)
 		if !ok || ex.Index != 1 {
 			continue
 		}
